@@ -367,7 +367,7 @@ pub fn output_side_writer(input: &[u8], src: Fmt, to: Fmt, doc: &Val, k: usize, 
 }
 
 pub fn run(ctx: &Ctx) -> i32 {
-    let n = ctx.size(1500, 60000);
+    let n = ctx.size(1500, 200000);
     let seed = ctx.seed;
     let acc = crate::par::run(n, 2, |i, acc| {
         let mut rng = Rng::derive(seed, 0xc11, i as u64);
